@@ -21,6 +21,24 @@ import (
 // variable that no injector uses and that is ill-formed.
 func genC19() *rapid.Generator[*Spec] {
 	return rapid.Custom(func(t *rapid.T) *Spec {
+		s := genC19base().Draw(t, "base")
+		// some injector files are guarded by a second tag, which every command
+		// of this check passes: check and show must honour -tags like gen does
+		for k := range s.Injectors {
+			fi := s.Injectors[k].File
+			if _, done := s.InjConstraints[fi]; !done && rapid.IntRange(0, 99).Draw(t, "zzextra") < 25 {
+				if s.InjConstraints == nil {
+					s.InjConstraints = map[int]string{}
+				}
+				s.InjConstraints[fi] = rapid.SampledFrom([]string{"wireinject && zzextra", "zzextra && wireinject"}).Draw(t, "zzconstraint")
+			}
+		}
+		return s
+	})
+}
+
+func genC19base() *rapid.Generator[*Spec] {
+	return rapid.Custom(func(t *rapid.T) *Spec {
 		switch rapid.SampledFrom([]string{"wf", "wf", "wf", "wf", "c05", "c06", "c08", "c09", "c09", "c11", "badset", "badset", "badset", "chain", "chain", "injshape"}).Draw(t, "family") {
 		case "injshape":
 			// an injector template with an unusual result list (none at all, two
@@ -254,7 +272,10 @@ func c19Eval(c *Ctx) func([]*Spec) []c19Obs {
 				evs[n] = e
 				names = append(names, n)
 			}
-			gen := w.GenAll(names, GenOpts{})
+			// every command runs with -tags zzextra: some programs guard an
+			// injector file with `wireinject && zzextra`
+			tagFlags := []string{"-tags", "zzextra"}
+			gen := w.GenAll(names, GenOpts{Flags: tagFlags})
 			unattributable := func(stderr string) bool {
 				for _, line := range strings.Split(stderr, "\n") {
 					if strings.HasPrefix(line, "wire: ") && line != "wire: error loading packages" && !reProgPath.MatchString(line) {
@@ -271,8 +292,8 @@ func c19Eval(c *Ctx) func([]*Spec) []c19Obs {
 					loaded = append(loaded, n)
 				}
 			}
-			chk := w.GenAll(loaded, GenOpts{Cmd: "check", ForceSingle: unattributable})
-			shw := w.GenAll(loaded, GenOpts{Cmd: "show", ForceSingle: unattributable})
+			chk := w.GenAll(loaded, GenOpts{Cmd: "check", Flags: tagFlags, ForceSingle: unattributable})
+			shw := w.GenAll(loaded, GenOpts{Cmd: "show", Flags: tagFlags, ForceSingle: unattributable})
 			// group outputs: check stderr lines / show stdout blocks by program
 			for k, i := 0, rs[ri].lo; i < rs[ri].hi; i, k = i+1, k+1 {
 				n := names[k]
